@@ -19,9 +19,11 @@ pub struct C12Result {
 
 pub const SIG_F6: &str = "remove_expired removes the expired entry without its descendants";
 pub const SIG_F7: &str = "submit_entry inserts a child whose parent left the pool after pre_check";
+pub const SIG_F11: &str = "descendants of a detached tx that cannot be re-added stay pooled";
+pub const SIG_GAP: &str = "gap-stage entry is not demoted when its proposal leaves the window from the gap";
 
 /// every input / dep of a pooled tx is live on the chain or an output of a pooled tx
-pub fn c12_unresolvable(w: &World, dump: &PoolDump) -> Vec<Problem> {
+pub fn c12_unresolvable(w: &World, dump: &PoolDump) -> Vec<(String, Value, Byte32)> {
     let snap = w.node.shared.snapshot();
     let by_hash: HashMap<Byte32, &EntryDump> = dump.entries.iter().map(|e| (e.tx_hash.clone(), e)).collect();
     let mut out = vec![];
@@ -38,7 +40,7 @@ pub fn c12_unresolvable(w: &World, dump: &PoolDump) -> Vec<Problem> {
                     out.push((
                         format!("C12 pooled tx has an {kind} that is {class}"),
                         json!({"tx": w.tx_no(&e.tx_hash), "out_point": [w.tx_no(&op.tx_hash()), idx], "status": status_name(e.status)}),
-                        None,
+                        op.tx_hash(),
                     ));
                 }
             }
@@ -94,7 +96,7 @@ pub fn admissible(w: &World, dump: &PoolDump, tx: &TransactionView) -> bool {
     true
 }
 
-pub fn c12_predicate(w: &World, dump: &PoolDump, ch: &Change, before: Option<&PoolDump>) -> C12Result {
+pub fn c12_predicate(w: &World, dump: &PoolDump, ch: &Change, before: Option<&PoolDump>, learn: &mut Vec<(Byte32, &'static str)>, lost: &mut Vec<Byte32>) -> C12Result {
     let mut r = C12Result::default();
     let snap = w.node.shared.snapshot();
     let view = snap.proposals();
@@ -108,20 +110,25 @@ pub fn c12_predicate(w: &World, dump: &PoolDump, ch: &Change, before: Option<&Po
         }
     }
     // (2) inputs and deps resolvable
+    let attached0: HashSet<Byte32> = ch.attached.iter().flat_map(|b| b.transactions().into_iter().skip(1).map(|t| t.hash())).collect();
+    let detached_only: HashSet<Byte32> = ch.detached.iter().flat_map(|b| b.transactions().into_iter().skip(1).map(|t| t.hash())).filter(|h| !attached0.contains(h)).collect();
     let unres = c12_unresolvable(w, dump);
-    for (what, detail, _) in unres {
-        // F6: the missing parent was pooled before this update and had expired
-        let mut sig = None;
-        if let (Some(b), Some(op)) = (before, detail.get("out_point")) {
-            let parent_no = op[0].as_u64();
-            if let Some(pn) = parent_no {
-                let ph = w.txs[pn as usize].tx.hash();
-                if let Some(pe) = b.entries.iter().find(|e| e.tx_hash == ph) {
-                    if pe.timestamp + w.cfg.expiry_hours as u64 * 3_600_000 < w.clock {
-                        sig = Some(SIG_F6);
-                    }
+    for (what, detail, ph) in unres {
+        let mut sig = w.orphan_cause.get(&ph).cloned();
+        if sig.is_none() {
+            // F6: the missing parent was pooled before this update and had expired
+            if let Some(pe) = before.and_then(|b| b.entries.iter().find(|e| e.tx_hash == ph)) {
+                if pe.timestamp + w.cfg.expiry_hours as u64 * 3_600_000 < w.clock {
+                    sig = Some(SIG_F6);
                 }
             }
+        }
+        if sig.is_none() && (detached_only.contains(&ph) || w.lost_detached.contains(&ph)) {
+            // the parent was committed on the abandoned branch only and could not come back
+            sig = Some(SIG_F11);
+        }
+        if let Some(s) = sig {
+            learn.push((ph, s));
         }
         problems.push((what, detail, sig));
     }
@@ -147,6 +154,7 @@ pub fn c12_predicate(w: &World, dump: &PoolDump, ch: &Change, before: Option<&Po
                 c("c12_detached_tx_readmitted", 1);
                 continue;
             }
+            lost.push(tx.hash());
             if admissible(w, dump, tx) {
                 // the node's own admission test on the final state
                 let own = matches!(w.node.pool().test_accept_tx(tx.clone()), Ok(Ok(_)));
@@ -166,8 +174,9 @@ pub fn c12_predicate(w: &World, dump: &PoolDump, ch: &Change, before: Option<&Po
         let exp = if view.contains_proposed(&e.id) { Status::Proposed } else if view.contains_gap(&e.id) { Status::Gap } else { Status::Pending };
         c(&format!("c12_stage_{}", status_name(exp)), 1);
         if exp != e.status {
+            let sig = if e.status == Status::Gap && exp == Status::Pending && !ch.old_set.contains(&e.id) { Some(SIG_GAP) } else { None };
             problems.push(("C12 stage of a pooled tx does not match the proposal window of the new chain".into(),
-                json!({"tx": w.tx_no(&e.tx_hash), "stage": status_name(e.status), "window_says": status_name(exp), "tip": snap.tip_number()}), None));
+                json!({"tx": w.tx_no(&e.tx_hash), "stage": status_name(e.status), "window_says": status_name(exp), "tip": snap.tip_number()}), sig));
         }
     }
     r.problems = problems;
